@@ -4,7 +4,10 @@ Execution-graph correspondence (real ExecutionGraph driven by the scripted
 scheduler vs Model/Exec.lean, state compared after every operation), the C05
 monitor of harness/execsim.py evaluated on the real traces, and conductor-level
 runs (real Conductor.monitor_study, cancel requests through the lock file,
-studies made of locally executed steps only)."""
+studies made of locally executed steps only), a third of them each entered through
+Conductor directly, through maestrowf.maestro.main() (`maestro run -fg`) and through
+`maestro run` + maestrowf.conductor.main() (`conductor`), whose exit codes are compared
+with the verdict the final status table prescribes."""
 import os
 import shutil
 
@@ -13,21 +16,30 @@ import execprop
 from corr import Case, compare, judge, account
 
 LEVEL = "proof"
-RULE = execprop.RULE + "; plus conductor-level runs with cancel requests, 40% of them with local steps only"
+RULE = (execprop.RULE + "; plus conductor-level runs with cancel requests, 40% of them with local steps only, "
+        "entered through Conductor / `maestro run -fg` / `maestro run`+`conductor` in turn (exit codes compared)")
 
 
 def run(ctx, escalated=False):
     quick = ctx.tier == "quick" and not escalated
     cases = execprop.run(ctx, "C05", escalated, finish=False)
     extra = []
-    for k in range(60 if quick else 2000):
-        r = condsim.run(ctx, ctx.rng, k, cancel_prob=0.25, local_prob=0.4)
+    for k in range(150 if quick else 3000):
+        # a cancel request decides the verdict by itself: the entry-point runs keep it rare so that
+        # verdicts decided by what the scheduler reported (a job cancelled from outside, a failure) dominate
+        entry = ("direct", "fg", "bg")[k % 3]
+        r = condsim.run(ctx, ctx.rng, k, cancel_prob=0.25 if entry == "direct" else 0.04,
+                        local_prob=0.4 if entry == "direct" else 0.15, entry=entry)
         if r is None:
             continue
+        ctx.count("entry:" + r["entry"])
         extra.append(Case({"kind": "conductor", "spec": r["spec"], "polls": r["polls"], "returned": r["ret"],
+                           "entry": r["entry"], "exit_code": r["exit"], "options": r["options"],
                            "cancel_at_poll": r["cancelled"]}, [], [], r["mon"]["C05"][:3],
                           r["cancelled"] is not None or r["nontrivial"]))
         ctx.count("conductor:" + r["ret"])
+        if r["entry"] != "direct":
+            ctx.count("exit:%s:%s%s" % (r["entry"], r["exit"], ":cancel-requested" if r["cancelled"] is not None else ""))
         if k % 30 == 29:
             shutil.rmtree(os.path.join(ctx.scratch, "cond"), ignore_errors=True)
     import scripted as S
